@@ -97,7 +97,7 @@ func ResolveLoad(u *ssa.UnOp) ssa.Value {
 	}
 	if fa, ok := u.X.(*ssa.FieldAddr); ok {
 		if al, ok := fa.X.(*ssa.Alloc); ok {
-			return localStructField(al, fa.Field, 0)
+			return localStructField(al, fa.Field, 0, u)
 		}
 		return nil
 	}
@@ -133,15 +133,31 @@ func ResolveLoad(u *ssa.UnOp) ssa.Value {
 // localStructField: the value of field f of the local struct variable al when it is written exactly once —
 // directly, or by a whole-struct copy from another such variable (the result struct of an inlined helper) — and
 // the variable's address does not escape.
-func localStructField(al *ssa.Alloc, f int, depth int) ssa.Value {
+func localStructField(al *ssa.Alloc, f int, depth int, use ssa.Instruction) ssa.Value {
 	if depth > 4 || al.Referrers() == nil {
 		return nil
+	}
+	// the write must come before the read: same block earlier, or in a dominating block
+	before := func(st ssa.Instruction) bool {
+		if st.Block() == use.Block() {
+			for _, in := range st.Block().Instrs {
+				if in == st {
+					return true
+				}
+				if in == use {
+					return false
+				}
+			}
+			return false
+		}
+		return st.Block().Dominates(use.Block())
 	}
 	if _, isStruct := al.Type().(*types.Pointer).Elem().Underlying().(*types.Struct); !isStruct {
 		return nil
 	}
 	var fieldStores []ssa.Value
 	var wholeStores []ssa.Value
+	ordered := true
 	for _, r := range *al.Referrers() {
 		switch x := r.(type) {
 		case *ssa.FieldAddr:
@@ -154,6 +170,9 @@ func localStructField(al *ssa.Alloc, f int, depth int) ssa.Value {
 					if y.Addr == ssa.Value(x) {
 						if x.Field == f {
 							fieldStores = append(fieldStores, y.Val)
+							if !before(y) {
+								ordered = false
+							}
 						}
 					} else {
 						return nil // the field's address is stored somewhere
@@ -184,6 +203,9 @@ func localStructField(al *ssa.Alloc, f int, depth int) ssa.Value {
 					continue
 				}
 				wholeStores = append(wholeStores, x.Val)
+				if !before(x) {
+					ordered = false
+				}
 			} else {
 				return nil // the address escapes
 			}
@@ -192,13 +214,16 @@ func localStructField(al *ssa.Alloc, f int, depth int) ssa.Value {
 			return nil
 		}
 	}
+	if !ordered {
+		return nil
+	}
 	switch {
 	case len(fieldStores) == 1 && len(wholeStores) == 0:
 		return fieldStores[0]
 	case len(fieldStores) == 0 && len(wholeStores) == 1:
 		if ld, ok := wholeStores[0].(*ssa.UnOp); ok && ld.Op == token.MUL {
 			if src, ok := ld.X.(*ssa.Alloc); ok {
-				return localStructField(src, f, depth+1)
+				return localStructField(src, f, depth+1, ld)
 			}
 		}
 	}
